@@ -138,6 +138,8 @@ class FineTuner(Trainer):
   def __init__(self, rounds=None, **kw):
     super().__init__(**kw)
     self.rounds = rounds
+
+Coach = Trainer          # the same class under a second attribute name
 ''')
   # a library module that registers nested classes / methods itself (by decorator) and is then used by a
   # dynamic-registration file; a top-level object shares the nested class's name
@@ -738,6 +740,12 @@ SPELLINGS = {
     'reference_and_method_in_one_list': (
         [SPELL_HEAD + "import c19tool.c19tool as a\na.consume.source = [@a.Trainer(), @a.Trainer.fit]\na.Trainer.fit.epochs = 3\n"],
         {'lr': None, 'fit': ('fit', 3)}),
+    'class_under_two_attribute_names': (
+        [SPELL_HEAD + "from c19tool import c19tool as t\nt.Trainer.lr = 4\nt.consume.source = @t.Trainer()\nt.Coach.fit.epochs = 3\n"],
+        {'lr': 4, 'fit': ('fit', 3)}),
+    'class_under_two_attribute_names_alias_first': (
+        [SPELL_HEAD + "from c19tool import c19tool as t\nt.consume.source = @t.Coach()\nt.Coach.lr = 4\nt.Trainer.fit.epochs = 3\n"],
+        {'lr': 4, 'fit': ('fit', 3)}),
     'static_method': (
         [SPELL_HEAD + "from c19tool import c19tool as t\nt.consume.source = @t.Trainer()\nt.Trainer.make.warmup = 100\nt.Trainer.lr = 2\n"],
         {'lr': 2, 'fit': ('fit', 'de'), 'make': ('make', 100), 'make_registered': True}),
